@@ -261,6 +261,7 @@ func runProperty(e *Engine, prop, tier, propsFile, evidence, replays, knownFile 
 	undecided := []string{}
 	keys := append(append([]string{}, pc.Functions...), pc.Sweep...)
 	lemmaSeen := map[string]bool{}
+	closureKeys := map[string]bool{}
 	for ki := 0; ki < len(keys); ki++ {
 		key := keys[ki]
 		var res *FuncResult
@@ -306,6 +307,25 @@ func runProperty(e *Engine, prop, tier, propsFile, evidence, replays, knownFile 
 			undecided = append(undecided, key+": "+firstLine(res.Error))
 			continue
 		}
+		if os.Getenv("GOVC_NOCLOSURE") == "" && !strings.Contains(key, "@") {
+			// dependency closure: also verify, under this property's clause set, every contract this proof relies on
+			// (transitively), so that no clause assumed at a call site in this check is verified only by another check
+			for _, g := range res.Modular {
+				if e.cf.Funcs[g] == nil {
+					continue
+				}
+				have := false
+				for _, k := range keys {
+					if k == g {
+						have = true
+					}
+				}
+				if !have {
+					keys = append(keys, g)
+					closureKeys[g] = true
+				}
+			}
+		}
 	}
 	genSecs := time.Since(t0).Seconds()
 	// phase 2: solve the obligations of all functions concurrently
@@ -318,6 +338,23 @@ func runProperty(e *Engine, prop, tier, propsFile, evidence, replays, knownFile 
 			obls := filterObls(res.Obls, prop)
 			if res.Variant != "" && res.Variant != prop {
 				obls = filterVariant(res.Obls, res.Variant)
+			}
+			if closureKeys[res.Key] {
+				// a contract this property's proof relies on: only what callers assume of it is claimed here
+				var keep []*Obligation
+				for _, o := range obls {
+					switch o.Kind {
+					case "post", "exit", "frame", "inv-entry", "inv-pres", "fold":
+						keep = append(keep, o)
+					default:
+						if o.MustFail || o.Atom {
+							keep = append(keep, o)
+						}
+					}
+				}
+				obls = keep
+				res.Obls = keep
+				res.Notes = append(res.Notes, "dependency of this property's proof (its contract is used by a listed function): only its contract clauses (postconditions, frame, loop invariants) are claimed here; its own safety obligations belong to the property that lists it")
 			}
 			all = append(all, obls...)
 			wg.Add(1)
